@@ -104,6 +104,7 @@ class Ctx:
         self.axioms: dict[str, list[str]] = {}
         self.checker_cmd = ""
         self.driver_ok = True
+        self.shrinker = None
         kf = _load_findings()
         self.known = {e["id"]: e for e in kf["findings"] if e["property"] == prop and e.get("status") == "known"}
         self.fixed = {e["id"]: e for e in kf["findings"] if e["property"] == prop and e.get("status") == "fixed"}
@@ -283,6 +284,13 @@ class Ctx:
         replay = None
         if self.violations:
             v = min(self.violations, key=lambda v: len(canon(v)))
+            if self.shrinker is not None and "case" in v:
+                try:
+                    small = self.shrinker(v["case"])
+                    if small is not None and len(canon(small)) < len(canon(v["case"])):
+                        v = dict(v, case=small, shrunk_from=v["case"])
+                except Exception as e:  # noqa: BLE001
+                    self.notes.append(f"shrinker failed: {e!r}")
             replay = self._write_replay({"kind": "failing-input", **v})
             lines.append(f"VIOLATION property={self.prop} replay={replay}")
             rc = 1
